@@ -83,9 +83,9 @@ META["C14"] = {
     "level": "exploration",
     "tiers": {
         "quick": {"shards": 3, "deadline_s": 200,
-                  "bounds": "all sequences of length 1..7 over {+-1, +-h, +-2^12} (h = 2^-p (1+2^-10)); block sequences prefix (length <= 2) + k copies, k = 10..10^6 (10^5 for prefixes of length 2); eleven named families (two of them scaled to the bottom of the exponent range) with N = 1..10^6; integral with/without distributions, a single-bin distribution and two multi-bin distributions (3 and 2 bins fed interleaved subsequences); 3 types"},
+                  "bounds": "all sequences of length 1..7 over {+-1, +-h, +-2^12} (h = 2^-p (1+2^-10)); block sequences prefix (length <= 2) + k copies, k = 10..10^5 (10^4 for prefixes of length 2); eleven named families (two of them scaled to the bottom of the exponent range) with N = 1..10^5; integral with/without distributions, a single-bin distribution and two multi-bin distributions (3 and 2 bins fed interleaved subsequences); 3 types"},
         "thorough": {"shards": 3, "deadline_s": 1500,
-                     "bounds": "as quick with sequences up to length 9, prefixes up to length 3, k and N up to 10^7"},
+                     "bounds": "as quick with sequences up to length 9, prefixes up to length 3 (k up to 10^5 for length 2), k and N up to 10^7"},
     },
     "rule": "nested enumeration of value sequences fed to hep::plain_iteration by a scripted integrand; a sequence is non-trivial when naive left-to-right summation in T is not exact for it (measured); distinct = distinct non-trivial sequences plus distinct block/family cases",
     "assumptions": [
